@@ -1,4 +1,5 @@
 import Cvise.Model.Driver
+import Cvise.Model.WorldFS
 import Cvise.Drv.Util
 /-! line protocol for whole `reduce` / `run_pass` scenarios with table-driven stub passes -/
 namespace Cvise.Drv
@@ -137,7 +138,28 @@ def handleDrv (line : String) : String :=
   let keys := (passes.map (·.key)).eraseDups
   let stat := keys.map fun k => s!"{k}:{x.side.worked k}/{x.side.failed k}/{x.side.executed k}"
   let tot (f : Nat → Nat) : Nat := (keys.map f).foldl (· + ·) 0
-  s!"{outcome} disk={showNatList x.disk} worked={tot x.side.worked} failed={tot x.side.failed} executed={tot x.side.executed} bug={x.side.bug} extra={x.side.extra} stats={if stat.isEmpty then "-" else ",".intercalate stat} log={if evs.isEmpty then "-" else ",".intercalate evs}"
+  -- the working directory after the run (only when the scenario lists it): the model's own event log applied to the
+  -- initial listing by `W.afterReduce`; report directories are compared by their number only (`bug=` / `extra=`)
+  let wfs := get "wfs"
+  let fsOut : String :=
+    if wfs = "-" then "" else
+      let names := items (get "names") ";"
+      let fs0 : Cvise.W.FS := (items wfs ";").map fun e => match e.splitOn ":" with
+        | [p, c] => (p, [nat! c])
+        | _ => ("?", [])
+      let log : List (Ev Cvise.W.Bytes) := x.side.log.map fun e => match e with
+        | .commit p k c => .commit p k [c]
+        | .replay p k c => .replay p k [c]
+        | .tested j ex => .tested (j.map fun c => [c]) ex
+        | .sched p o => .sched p o
+        | .fail p => .fail p
+        | .bugdir => .bugdir
+        | .extradir => .extradir
+      let out := Cvise.W.afterReduceD names (fun n => s!"cvise_bug_{n}") (fun n => s!"cvise_extra_{n}") (get "tidy" = "1" || mode = "pass") fs0 log
+        (x.disk.map fun c => [c])
+      let listing := (out.filter fun e => !Cvise.W.isReportPath e.1).map fun e => s!"{e.1}:{(e.2.headD 0)}"
+      " fs=" ++ ";".intercalate (listing.toArray.qsort (· < ·)).toList
+  s!"{outcome} disk={showNatList x.disk} worked={tot x.side.worked} failed={tot x.side.failed} executed={tot x.side.executed} bug={x.side.bug} extra={x.side.extra} stats={if stat.isEmpty then "-" else ",".intercalate stat} log={if evs.isEmpty then "-" else ",".intercalate evs}{fsOut}"
 where
   natList' (s : String) : List Nat := if s = "-" || s = "" then [] else (s.splitOn ".").map nat!
 
